@@ -268,16 +268,24 @@ def cat_layout_errors(rng):
         "  0 [+1]  UInt  q\n    [requires: this]", "  0 [+8]  Int:64  r\n  let s = r * r",
         "  0 [+1]  UInt  after", "  0 [+1]  UInt  class", "  $next [+1]  UInt  t",
         "  0 [+1]  UInt  u\n  0xffff_ffff_ffff_ffff [+u]  UInt:8[]  v",
-        "  0 [+$max_size_in_bytes]  UInt:8[]  w",
+        "  0 [+$max_size_in_bytes]  UInt:8[]  w", "  0 [+8]  UInt  a64\n  a64 [+8]  UInt  c64", "  0 [+8]  UInt  b64\n  b64 + 1 [+8]  UInt  d64",
+        "  0 [+8]  UInt  e64\n  8 [+e64]  UInt:8[]  f64\n  $next [+1]  UInt  g64",
         "  0 [+-1]  UInt  neg\n  let neg_plus = neg + 1", "  0 [+4]  bits:\n    0 [+0]  UInt  zero_bits\n    1 [+-2]  Int  neg_bits",
         "  0 [+8]  bits:\n    0 [+65]  UInt  wide_bits\n    1 [+18446744073709551616]  Int  huge_bits",
         "  0 [+18446744073709551615]  Bcd  huge\n  let huge_plus = huge + 1", "  0 [+2]  UInt:8[]  na\n  2 [+$next]  UInt  nb\n  $next [+1]  UInt  nc",
         "  0 [+1]  UInt  n1\n  $next [+$next + 1]  UInt:8[]  n2\n  $next [+1]  UInt  n3\n  $next [+1]  UInt  n4", "  0 [+600]  Int  big\n  if big > 3:\n    600 [+1]  UInt  after_big",
     ]
+    # one construction per entry file (an error hides the deferred errors of every other construction in
+    # the same compilation), plus one file that combines a few
+    files, entries = {}, []
+    for i, c in enumerate(rng.sample(cands, rng.randint(2, 5))):
+        files[f"lay{i}.emb"] = "\n".join([_hdr(rng), f"struct {camel(rng)}:", c]) + "\n"
+        entries.append(f"lay{i}.emb")
     lines = [_hdr(rng), f"struct {camel(rng)}:"]
-    chosen = rng.sample(cands, rng.randint(1, 4))
-    lines.extend(chosen)
-    return {"m.emb": "\n".join(lines) + "\n"}, "m.emb", ["layout_error"]
+    lines.extend(rng.sample(cands, rng.randint(2, 4)))
+    files["m.emb"] = "\n".join(lines) + "\n"
+    entries.append("m.emb")
+    return files, entries, ["layout_error"]
 
 
 def cat_unknown_import(rng):
